@@ -226,6 +226,92 @@ def r18e(rep, F):
             'cached value := predicate() in the polling loop' if ok else 'polling loop does not store the predicate value')
 
 
+class PollInterp(fd.Interp):
+    """periodicEval over a scripted predicate: fields are abstract booleans / a period; the predicate answers from a script
+    and the stop request arrives when the script is exhausted"""
+    max_steps = 200000
+
+    def __init__(self, fn, fields, script):
+        super().__init__(fn)
+        self.fields = fields
+        self.script = list(script)
+        self.polls = 0
+        self.history = []
+
+    def load(self, n, env):
+        if n['k'] == 'MemberExpr' and n.get('name') in self.fields:
+            return self.fields[n['name']]
+        raise AnalysisBroken('R18h: periodicEval reads %s' % self.fn.fp(n['id']))
+
+    def store(self, lhs, v, env):
+        if lhs is not None and lhs['k'] == 'MemberExpr' and lhs.get('name') in self.fields:
+            self.fields[lhs['name']] = v
+            if lhs['name'] == 'evalValue_':
+                self.history.append(v)
+            return
+        raise AnalysisBroken('R18h: periodicEval writes %s' % (self.fn.fp(lhs['id']) if lhs else '?'))
+
+    def ev(self, nid, env):
+        n = self.fn.nodes.get(nid)
+        if n is not None and n['k'] == 'BinaryOperator' and n.get('op') == '/':
+            a, b = self.ev(n['ch'][0], env), self.ev(n['ch'][1], env)
+            return float(a) / float(b)
+        if n is not None and n['k'] == 'ImplicitCastExpr' and n.get('ck') == 'FloatingToIntegral':
+            return int(self.ev(n['ch'][0], env))
+        return super().ev(nid, env)
+
+    def call(self, n, env):
+        c = n.get('callee') or ''
+        if n['k'] in ('CXXOperatorCallExpr', 'CallExpr') and n['ch'] and field_of(self.fn, n['ch'][0]) == 'fn_':
+            self.polls += 1
+            v = self.script.pop(0) if self.script else False
+            if not self.script:
+                self.fields['signalThreadStop_'] = True        # the owner goes away after the last scripted answer
+            return v
+        if c.endswith('sleep_for') or c.endswith('::seconds') or 'chrono' in c or c.endswith('::duration'):
+            return ('opaque',)
+        if c.endswith('::load') or c.endswith('operator bool') or c.endswith('::operator _Bool') or 'atomic' in c:
+            # std::atomic<bool> reads / writes of the two request flags
+            if c.endswith('operator=') or c.endswith('::store'):
+                t = self.fn.strip(n['ch'][0])
+                v = self.ev(n['ch'][-1], env)
+                self.store(t if t['k'] == 'MemberExpr' else self.fn.strip(t['ch'][0]), v, env)
+                return v
+            return self.ev(n['ch'][0], env)
+        raise AnalysisBroken('R18h: periodicEval calls %s' % c)
+
+
+def r18h(rep, F):
+    rep.rule('R18h', 'the polling thread keeps polling: PlannerTerminationConditionImpl::periodicEval is interpreted over scripted '
+                     'predicates (answers F T F T F, T F, F F T; periods 0.0005 and 0.01; no terminate request; the stop request '
+                     'arrives with the last answer): the predicate is called once per scripted answer and the cached value takes '
+                     'every answer in order -- a predicate that was true once and is false again is seen false again, at most one '
+                     'period late; with a terminate or stop request pending before the first poll the thread ends')
+    pe = F.one(IMPL + '::periodicEval')
+    bad = None
+    runs = 0
+    for script in ([False, True, False, True, False], [True, False], [False, False, True], [True, True, False, False]):
+        for period in (0.0005, 0.01):
+            it = PollInterp(pe, {'terminate_': False, 'signalThreadStop_': False, 'evalValue_': False, 'period_': period, 'fn_': ('fn',)}, script)
+            it.run()
+            runs += 1
+            if it.history != script and bad is None:
+                bad = 'for predicate answers %s (period %s) the predicate is polled %d time(s) and the cached value takes %s: once the ' \
+                      'predicate was true the thread stops polling, so the condition keeps reporting true after the predicate went back ' \
+                      'to false' % (script, period, it.polls, it.history) if it.polls < len(script) else \
+                      'for predicate answers %s the cached value takes %s' % (script, it.history)
+    rep.add('R18h', pe.name, 'polls-until-stopped', bad is None, pe.loc, bad or 'the cached value follows the scripted predicate on %d runs' % runs)
+    bad = None
+    for fld in ('terminate_', 'signalThreadStop_'):
+        st = {'terminate_': False, 'signalThreadStop_': False, 'evalValue_': False, 'period_': 0.01, 'fn_': ('fn',)}
+        st[fld] = True
+        it = PollInterp(pe, st, [True, True, True])
+        it.run()
+        if it.polls > 1:
+            bad = 'with %s already set the thread still polls %d times' % (fld, it.polls)
+    rep.add('R18h', pe.name, 'request-ends-thread', bad is None, pe.loc, bad or 'a pending terminate / stop request ends the thread before it polls again')
+
+
 class JoinClient(paths.Client):
     def __init__(self):
         self.exits = []
@@ -659,3 +745,4 @@ def run(rep):
     r18e(rep, F)
     r18f(rep, F)
     r18g(rep, F)
+    r18h(rep, F)
